@@ -475,7 +475,7 @@ pub fn trim_last<T: AsRef<Path>>(path: T) -> PathBuf {
 pub fn trim_prefix<T: AsRef<Path>, U: AsRef<Path>>(path: T, prefix: U) -> PathBuf {
     let path = path.as_ref();
     match (path.to_string(), prefix.as_ref().to_string()) {
-        (Ok(base), Ok(prefix)) if base.starts_with(&prefix) => PathBuf::from(&base[prefix.size()..]),
+        (Ok(base), Ok(prefix)) if base.starts_with(&prefix) => PathBuf::from(&base[prefix.len()..]),
         _ => path.to_path_buf(),
     }
 }
@@ -523,7 +523,7 @@ pub fn trim_protocol<T: AsRef<Path>>(path: T) -> PathBuf {
 pub fn trim_suffix<T: AsRef<Path>, U: AsRef<Path>>(path: T, suffix: U) -> PathBuf {
     let path = path.as_ref();
     match (path.to_string(), suffix.as_ref().to_string()) {
-        (Ok(base), Ok(suffix)) if base.ends_with(&suffix) => PathBuf::from(&base[..base.size() - suffix.size()]),
+        (Ok(base), Ok(suffix)) if base.ends_with(&suffix) => PathBuf::from(&base[..base.len() - suffix.len()]),
         _ => path.to_path_buf(),
     }
 }
